@@ -400,6 +400,10 @@ pub fn run(sc: &Scenario) -> RunOutput {
 
         // Connectors.
         for (k, c) in sc.connects.iter().enumerate() {
+            if c.node >= sc.nodes.len() {
+                // a connect of a scripted attacker: only its stream key is used
+                continue;
+            }
             expected_tasks += 2;
             let ctx = ctx.clone();
             let sock = socks[c.node].clone();
@@ -534,6 +538,9 @@ pub fn run(sc: &Scenario) -> RunOutput {
                     }
                 }
             });
+        }
+        if let Some(a) = &sc.attack {
+            crate::attack::spawn(&ctx, a);
         }
         // Scripted peer.
         if let Some(p) = &sc.peer {
